@@ -9,7 +9,7 @@ DESIGN section 3, C13.
 import json
 import math
 
-from .common import BaseHooks, V, finite, is_qmat, cluster_sigma, logspace_sigma, np, qalg, round_sig, sub_rng
+from .common import rand_clock, BaseHooks, V, finite, is_qmat, cluster_sigma, logspace_sigma, np, qalg, round_sig, sub_rng
 
 PROP = "C13"
 WORLDS_QUICK = ("pkg", "flat")
@@ -32,7 +32,8 @@ def gen_trace(seed, world, tier, mode=None):
     kind = R.choice(KINDS)
     hi = 6 if tier == "quick" else 8
     m, n = R.randint(1, hi), R.randint(1, hi)
-    midsize = R.random() < 0.04
+    midsize = R.random() < (0.25 if kind == "hybrid" else 0.04)   # the hybrid's fixed 6-column test sketch is only
+    #                                                                narrower than the matrix for n >= 7
     if midsize:
         # mid-size problems with the DEFAULT sketch widths (block 16, test sketch 8): the only
         # place where the defaults are narrower than the matrix
@@ -101,6 +102,9 @@ def gen_trace(seed, world, tier, mode=None):
                "max_iter": min(budget, 400), "column_solver": R.choice(["qr", "spd"])}
         if midsize:
             cfg.update(r=min(12, k), p=4, T=5, max_iter=min(budget, 50))      # the defaults, r within 1..min(m,n)
+            if R.random() < 0.6:
+                # ... or a sketch exactly as wide as the test sketch (6), few sketch steps per cycle
+                cfg.update(r=R.choice([6, 6, R.randint(1, k)]), T=R.choice([1, 1, 2, 5]), p=R.randint(2, 8))
         cls, meth = "solver.HybridRSPNewtonSchulz", "compute"
     else:
         cfg = {"tol": tol, "max_iter": R.choice([budget, 500]),
@@ -120,17 +124,33 @@ def gen_trace(seed, world, tier, mode=None):
     call = {"k": "call", "obj": "s0", "meth": meth, "args": [A],
             "tags": {"kind": kind, "m": m, "n": n, "cond": cond, "wrong_orientation": wrong, "scale": sc}}
     x = R.random() if mode is None else {"plain": 0.1, "clock": 0.55, "spd": 0.65, "jitter": 0.75, "sweep": 0.9}[mode]
+    if kind == "hybrid" and mode is None and 0.25 <= x < 0.45:
+        x = 0.5     # the hybrid alternates two kinds of steps with bookkeeping in between: more clock scripts
     if midsize and x >= 0.82:
         x = 0.1     # no crash-point sweeps over mid-size solves: 48 re-executions under line monitoring
                     # exceeded the 300 s wall limit of a run on a loaded machine (harness error, exit 2)
     if x < 0.45:
         pass
     elif x < 0.62:
-        call["clock"] = R.choice(CLOCKS)
+        call["clock"] = rand_clock(R)
+        if kind == "hybrid" and R.random() < 0.5:
+            # a suspend / clock step in the middle of a LATER sweep of sketch steps (after the first
+            # hyperpower step has put an entry into the history): the shape of a deadline that
+            # expires mid-cycle; enough budget and a tight tolerance so that there are later sweeps
+            T_ = cfg["T"]
+            call["clock"] = [1e-3] * R.randint(T_ + 1, 4 * T_ + 2) + [R.choice([7200.0, 1e5, 4000.0, 1e9])] + [1e-3] * 400
+            cfg["max_iter"] = max(cfg["max_iter"], 50)
+            cfg["tol"] = min(cfg["tol"], 1e-7)
     elif x < 0.72:
         call["fault"] = {"spd_fallback": True}
         if kind.startswith("rsp") or kind == "hybrid":
             cfg["column_solver"] = "spd"
+    elif x < 0.75:
+        # the k-th LAPACK-backed factorisation inside the call fails (LinAlgError): the documented
+        # reaction of the sketch steps is to skip the step; whatever happens, the flag must stay sound
+        call["fault"] = {"linalg_fail": {"fn": R.choice(["qr", "qr", "qr", "svd", "inv"]), "k": R.choice([1, 1, 2, 3, 5])}}
+        if kind.startswith("rsp") or kind == "hybrid":
+            cfg["column_solver"] = "qr"      # the path that factorises
     elif x < 0.82:
         call["fault"] = {"jitter": R.randrange(2 ** 31)}
     else:
@@ -218,7 +238,7 @@ class Hooks(BaseHooks):
         A = mt["A"]
         m, n = A.shape
         fault = step.get("fault") or {}
-        hard = bool(fault.get("line") and rec.get("fault_fired"))
+        hard = bool((fault.get("line") or fault.get("linalg_fail")) and rec.get("fault_fired"))
         self.cnt["calls"] += 1
         if rec["ok"] == "exc":
             if hard:
@@ -351,7 +371,7 @@ class Hooks(BaseHooks):
             # it was validated for n <= 8 only and does NOT hold for mid-size inputs - DESIGN 6.3)
             tight_ok = (mt["cond"] <= 1.0 + 1e-9 and cfg["max_iter"] >= 1) or \
                        (mt["cond"] <= 10.0 * (1 + 1e-9) and cfg["max_iter"] >= n + 2 and n <= 8)
-            if not fault.get("line") and not tags.get("wrong_orientation") \
+            if not fault.get("line") and not fault.get("linalg_fail") and not tags.get("wrong_orientation") \
                     and ((cfg["max_iter"] >= 400 and mt["cond"] <= 1e3) or tight_ok):
                 if true > tol * (1 + 1e-6) + 1e-12 * mt["cond"] ** 2:
                     viol.append(V("cgne_liveness", i,
